@@ -3,6 +3,8 @@
 # usage: tokpred.sh <mode> <tok1> [tok2 ...] <file>
 #   mode all    : "fails" (exit 1, prints bug) iff every given token occurs in the file
 #   mode hashN  : as all, and additionally the token digest mod N must be non-zero (non-monotone)
+#   mode sync   : as all, and additionally the literal tokens (numerals, decimals, #b/#x, strings) must be at least two and all equal
+#                 (occurrences that have to be kept in sync: only a step that changes all of them at once is accepted)
 # Logs "<digest> <verdict>" to $VERIF_CMDLOG.  Optional delay: $VERIF_CMD_DELAY (ms, scaled by the digest).
 mode="$1"; shift
 for last; do :; done
@@ -14,6 +16,9 @@ while [ $# -gt 1 ]; do
   shift
 done
 case "$mode" in
+  sync) vals=$(printf '%s\n' "$toks" | grep -E '^([0-9]|#[bx]|")')
+        cnt=$(printf '%s\n' "$vals" | grep -c .); dist=$(printf '%s\n' "$vals" | sort -u | grep -c .)
+        { [ "$cnt" -ge 2 ] && [ "$dist" -eq 1 ]; } || ok=0 ;;
   hash*) n=${mode#hash}; v=$(printf '%d' "0x$(printf '%s' "$digest" | cut -c1-6)"); [ $((v % n)) -eq 0 ] && ok=0 ;;
 esac
 if [ -n "$VERIF_CMD_DELAY" ]; then
